@@ -55,6 +55,8 @@ def family() -> list[list[tuple[str, list[int]]]]:
         [("A", []), ("D", [0])],                                   # skip
         [("A", []), ("B", [0]), ("E", [1])],                       # other end
         [("A", []), ("B", [0]), ("A", [1]), ("B", [2]), ("D", [3])],  # a loop run twice
+        [("A", []), ("B", []), ("D", [0, 1])],                      # two events start the job in parallel (a joint successor set of the start)
+        [("A", []), ("A", []), ("E", [0, 1])],                      # ... two of one type (a counted successor set of the start)
     ]
 
 
